@@ -548,7 +548,11 @@ class CatalogWriter(AbstractContextManager, HandlesDataChunk):
             raise ValueError(f"patch with ID {patch_id} contains no data")
 
         patch_ids = np.fromiter(self.writers.keys(), dtype=np.int16)
-        np.sort(patch_ids).tofile(self.cache_directory / PATCH_INFO_FILE)
+        # the patch index marks the cache as complete, it must appear atomically
+        info_file = self.cache_directory / PATCH_INFO_FILE
+        temp_file = info_file.with_suffix(".tmp")
+        np.sort(patch_ids).tofile(temp_file)
+        temp_file.replace(info_file)
 
 
 def write_patches_unthreaded(
